@@ -238,7 +238,11 @@ func (conn *Conn) send(call *Call) {
 	// write queue: everything the request needs is taken from the call now.
 	ctx := Context{}
 	ctx.Seq = seq
-	ctx.upgrade = call.upgrade
+	// (the flags by value: the reader hands the flags object of a completed
+	// ping or stream close back to its pool, and a stream close can be
+	// completed early by a stream message still in flight)
+	flags := *call.upgrade
+	ctx.upgrade = &flags
 	var upgradeBuffer []byte
 	if !call.upgrade.IsZero() {
 		upgradeBuffer = getUpgradeBuffer()
